@@ -714,6 +714,54 @@ def run_step_closure(facts, clo_fn, elem_is_arg=True):
     return nx, np_, ng, ret
 
 
+def _ref_local(fn, o, depth=6, chain=None):
+    """the local a `&x` / `&mut x` / copy-of-reference operand points at (chain: every local passed on the way)"""
+    defs = fn.defs()
+    for _ in range(depth):
+        l = op_local(o)
+        if l is None:
+            return None
+        if chain is not None:
+            chain.add(l)
+        ds = defs.get(l, [])
+        if len(ds) != 1 or ds[0][2] != "assign":
+            return l
+        r = ds[0][3]["r"]
+        if r["k"] in ("ref", "raw"):
+            pl, pp = place_parts(r["p"])
+            if chain is not None and not pp:
+                chain.add(pl)
+            return pl if not pp else None
+        if r["k"] == "use" and op_local(r["o"]) is not None:
+            o = r["o"]
+            continue
+        return l
+    return None
+
+
+def loop_step(fn):
+    """`for x in xs.iter_mut() { *x *= pow; pow *= g }` written as a plain loop: returns
+    {'iter': term of the iterator, 'init': initial value of pow, 'g': advance factor, 'ordered': elem multiply before the
+    advance, 'same': the factor of the element multiply is the local that is advanced} for the (single) such loop"""
+    out = []
+    for scc in DF.sccs(fn):
+        nexts = [(bb, t) for bb, t in fn.calls() if bb in scc and t["f"].get("name") == "next"]
+        muls = [(bb, t) for bb, t in fn.calls() if bb in scc and t["f"].get("name") == "mul_assign" and len(t["args"]) == 2]
+        if len(nexts) != 1 or len(muls) != 2:
+            continue
+        it = E(fn, nexts[0][1]["args"][0])
+        elem = [m for m in muls if isinstance(E(fn, m[1]["args"][0]), tuple) and E(fn, m[1]["args"][0])[:2] == ("call", "next")]
+        adv = [m for m in muls if m not in elem]
+        if len(elem) != 1 or len(adv) != 1:
+            continue
+        (eb, et), (ab, at) = elem[0], adv[0]
+        fchain = set()
+        p_fac, p_adv = _ref_local(fn, et["args"][1], chain=fchain), _ref_local(fn, at["args"][0])
+        out.append({"iter": it, "init": E(fn, at["args"][0]), "g": E(fn, at["args"][1]), "ordered": fn.dominates(eb, ab) and eb != ab,
+                    "same": p_adv is not None and p_adv in fchain, "elem_factor": E(fn, et["args"][1])})
+    return out[0] if len(out) == 1 else None
+
+
 def check_powers(res, facts, units):
     rule = res.rule("R-POWERS", "coefficient i is multiplied by c*g^i: multiply by the running power, then advance it; start at c (parallel: c*g^(i*chunk), chunk = the chunks_mut length)", 3)
     x, pw, g = Q.var("x"), Q.var("pow"), Q.var("g")
@@ -724,6 +772,25 @@ def check_powers(res, facts, units):
             if f.id == DOM + "::distribute_powers_and_mul_by_const":
                 key = "ark_poly|%s|distribute_powers_and_mul_by_const" % unit
                 fes = [(bb, t) for bb, t in f.calls() if t["f"].get("name") == "for_each"]
+                if not fes:
+                    # serial form written as a plain loop
+                    ls = loop_step(f)
+                    if ls is None:
+                        rule.bad(key, "no loop / for_each over the coefficients that multiplies by a running power", f.loc)
+                    else:
+                        problems = []
+                        if ls["iter"] != C("iter_mut", A(1)):
+                            problems.append("the loop runs over %s, not the coefficient slice" % show(ls["iter"])[:80])
+                        if not ls["same"]:
+                            problems.append("the factor applied to the element is not the running power that is advanced")
+                        if not ls["ordered"]:
+                            problems.append("the running power is advanced before it is applied (coefficient i would get c*g^(i+1))")
+                        if ls["init"] != A(3):
+                            problems.append("the running power starts at %s instead of c" % show(ls["init"])[:80])
+                        if ls["g"] != A(2):
+                            problems.append("the running power is advanced by %s instead of g" % show(ls["g"])[:80])
+                        (rule.bad if problems else rule.ok)(key, "; ".join(problems) if problems else "loop: x' = x*pow, pow' = pow*g, pow_0 = c over coeffs.iter_mut()", f.loc)
+                    continue
                 if len(fes) != 1:
                     rule.bad(key, "expected one for_each over the coefficients", f.loc)
                     continue
@@ -734,6 +801,47 @@ def check_powers(res, facts, units):
                     rule.bad(key, "closure not found", f.loc)
                     continue
                 inner_calls = [ct for _, ct in clo.calls() if ct["f"].get("name") == "for_each"]
+                chunked = [tt for _, tt in f.calls() if tt["f"].get("name") in ("par_chunks_mut", "chunks_mut")]
+                if not inner_calls and chunked:
+                    # parallel form whose per-chunk body is a plain loop
+                    ls = loop_step(clo)
+                    outer_ups = E(f, t["args"][1])
+                    problems = []
+                    if ls is None:
+                        problems.append("no loop over the chunk that multiplies by a running power")
+                    elif not (isinstance(outer_ups, tuple) and outer_ups[0] == "agg" and len(outer_ups[2]) == 3):
+                        problems.append("outer closure captures %s" % show(outer_ups))
+                    else:
+                        caps = list(outer_ups[2])
+                        try:
+                            ic, ig = caps.index(A(3)), caps.index(A(2))
+                        except ValueError:
+                            ic = ig = None
+                        if ic is None:
+                            problems.append("captures %s do not include c and g" % show(outer_ups))
+                        else:
+                            ich = [k for k in range(3) if k not in (ic, ig)][0]
+                            if E(f, chunked[0]["args"][1]) != caps[ich]:
+                                problems.append("the exponent stride %s is not the chunk length %s handed to chunks_mut" % (show(caps[ich]), show(E(f, chunked[0]["args"][1]))))
+                            if E(f, chunked[0]["args"][0]) != A(1):
+                                problems.append("chunks are not taken over the coefficient slice")
+                            cc, gg, ch = A(1, str(ic)), A(1, str(ig)), A(1, str(ich))
+                            pws = [("pow", gg, ("bin", "Mul", A(2, "0"), ch)), ("pow", gg, ("bin", "Mul", ch, A(2, "0")))]
+                            starts = [("call", "mul", (cc, p_)) for p_ in pws] + [("call", "mul", (p_, cc)) for p_ in pws]
+                            if ls["init"] not in starts:
+                                problems.append("chunk i starts at %s instead of c*g^(i*chunk)" % show(ls["init"])[:120])
+                            if ls["g"] != gg:
+                                problems.append("the running power is advanced by %s instead of g" % show(ls["g"])[:80])
+                            if ls["iter"] != C("iter_mut", A(2, "1")):
+                                problems.append("inner loop does not run over the chunk")
+                            if not ls["same"]:
+                                problems.append("the factor applied to the element is not the running power that is advanced")
+                            if not ls["ordered"]:
+                                problems.append("the running power is advanced before it is applied")
+                            if "enumerate" not in [tt["f"].get("name") for _, tt in f.calls()]:
+                                problems.append("chunks are not enumerated")
+                    (rule.bad if problems else rule.ok)(key, "; ".join(problems) if problems else "chunk i starts at c*g^(i*chunk) with the chunks_mut length; loop body x' = x*pow, pow' = pow*g", f.loc)
+                    continue
                 if not inner_calls:
                     # serial form: closure captures (pow, g); pow initialised to c (arg3)
                     r = run_step_closure(facts, clo)
@@ -750,6 +858,7 @@ def check_powers(res, facts, units):
                     chunk_calls = [tt for _, tt in f.calls() if tt["f"].get("name") in ("par_chunks_mut", "chunks_mut")]
                     it = inner_calls[0]
                     icids = closure_args(clo, it)
+                    pass
                     iclo = facts.get(icids[0], unit) if icids else None
                     r = run_step_closure(facts, iclo) if iclo is not None else None
                     ups = E(clo, it["args"][1])
